@@ -136,6 +136,23 @@ CLAIMED.update({
 })
 
 CLAIMED.update({
+ "C08": dict(category="other",
+    text="Proof for the field validators only: check_or_raise_id accepts exactly the ints (not bools) in 0..2^53, "
+         "check_or_raise_uri accepts exactly the strings of the WAMP URI grammar for each of the six option combinations "
+         "(strict/loose x plain / empty components / empty last component) and None iff allowed, "
+         "check_or_raise_realm_name exactly its grammar; each returns its argument or raises only ProtocolError / "
+         "InvalidUriError for every value of every scalar type. The languages of the real `re` patterns are taken from "
+         "CPython's own pattern parser (incl. `$` and Unicode \\d / \\s semantics) and compared by z3 with spec languages "
+         "built from the WAMP specification text. Counterexamples are replayed on the real functions against a "
+         "regex-free reference. The 25 per-class parse() functions, Serializer.unserialize and check_or_raise_extra / "
+         "_validate_kwargs are NOT under contract yet (they need the dynamic-value encoding): the property is decided "
+         "for the validators only.",
+    note="Trusted: z3's regular-expression and string theory, pyvc, CPython's re._parser as the definition of the pattern "
+         "language; characters above U+2FFFF are outside z3's range.",
+    technique="contract-based deductive verification: AST->VC, Python regex -> z3 regex via CPython's parse tree, z3"),
+})
+
+CLAIMED.update({
  "C04": dict(category="proof",
     text="IdGenerator.next stays in 1..2^53 and is sequential; every reply arm of ApplicationSession.onMessage "
          "(PUBLISHED, SUBSCRIBED, UNSUBSCRIBED, REGISTERED, UNREGISTERED, RESULT incl. progressive, ERROR keyed by request "
